@@ -168,9 +168,9 @@ def rule_i3(F):
 
 REVIEWED = {
     # (function suffix, callee kind, producer) -> reason
-    ("declare_types", "unwrap", "get_scope_of"): "module scopes were created by declare_modules, which ran first (I3)",
-    ("declare_functions", "unwrap", "get_scope_of"): "module / type scopes exist after declare_modules and declare_types (I3)",
-    ("declare_constants", "unwrap", "get_scope_of"): "module / type scopes exist after declare_modules and declare_types (I3)",
+    # wherever it is written (declare_* or a helper of theirs): module scopes were created by declare_modules and type scopes by
+    # declare_types, which ran first (I3), and rule I6 checks for every such lookup that scope and identifier belong to the same item
+    ("", "unwrap", "get_scope_of"): "module / type scopes exist after declare_modules and declare_types (I3); scope/ident pairing is rule I6",
     ("declare_function", "unwrap", "parse_sig"): "only for crate-internal generic signatures (new_generic is pub(crate) unsafe)",
     ("declare_function", "unwrap", "insert_declaration"): "crate-internal generic signatures only",
     ("declare_function", "unwrap", "evaluate_type_expr"): "crate-internal generic signatures only",
@@ -238,22 +238,27 @@ def rule_i4(F):
 def rule_i6(F):
     """Obligation behind the reviewed `get_scope_of(..).unwrap()` sites: the scope and the identifier of each lookup
     belong to the same registered item (so the lookup cannot fail after the earlier passes)."""
-    r = RuleResult("C18.I6", "scope lookups during registration use the scope in which the looked-up item was declared", floor=5)
-    for fn in ("runtime::Rt::declare_types", "runtime::Rt::declare_functions", "runtime::Rt::declare_constants"):
-        b = F.body(fn)
-        if b is None or not b.mir:
-            r.missing(fn)
+    r = RuleResult("C18.I6", "scope lookups during registration use the scope in which the looked-up item was declared", floor=3)
+    seen_fns = set()
+    for b in F.bodies_in(["src/runtime/mod.rs"]):
+        if not b.mir or "::tests::" in b.path or not any(x in b.path for x in ("::declare_", "Rt::")):
             continue
-        defs = mir.Defs(b)
+        fn = b.path
+        if hir.last(fn) == "declare_import" or "declare_import" in fn:
+            continue  # use-paths: rule I1
+        defs = None
         n = 0
         for bi, t in mir.calls(b):
             if not mir.callee(t).endswith("::get_scope_of") or len(t["args"]) < 3:
                 continue
+            defs = defs or mir.Defs(b)
             n += 1
+            seen_fns.add(hir.last(fn))
             sk = mir.origin_key(b, defs, t["args"][1][1]) if mir.is_place_op(t["args"][1]) else "?"
             ik = mir.origin_key(b, defs, t["args"][2][1]) if mir.is_place_op(t["args"][2]) else "?"
             r.inst("%s lookup #%d" % (fn.rsplit("::", 1)[-1], n), {"fn": fn, "scope_from": sk, "ident_from": ik})
-            module_case = sk == "arg2" and ik.endswith(".ident") and ".name." not in ik
+            scope_param = sk.startswith("arg") and sk[3:].isdigit() and "ScopeRef" in b.mir["locals"][int(sk[3:])]["ty"]
+            module_case = scope_param and ik.endswith("ident") and ".name." not in ik
             type_case = sk.endswith(".name.scope") and ik.endswith(".name.ident") and sk[: -len(".scope")] == ik[: -len(".ident")]
             if not (module_case or type_case):
                 r.bad(fn, "lookup #%d" % n, relfile(b.file), t["line"],
@@ -304,8 +309,9 @@ def rule_i7(F):
               "the lookup for an earlier registration does not match every entry with the same TypeId (the predicate is narrowed): the same Rust type can be registered twice, e.g. under the same name in another scope")
     # hit -> Err
     hit_err = False
+    i7ld = hir.LocalDefs(b.hir)
     for iff in hir.nodes(h, "if"):
-        if any(n is look for n in hir.walk(iff["cond"])):
+        if any(n is look for n in hir.walk_expanded(i7ld, iff["cond"])):
             descs = [str(hir.result_desc(x.get("e"))) for x in hir.nodes(iff["then"], "ret")]
             hit_err = any("Err" in d for d in descs) and hir.diverges(iff["then"])
     r.inst("hit returns Err", {"ok": hit_err})
